@@ -130,8 +130,8 @@ func cliCrashCheck(src string, o *comp.Options, lib *comp.Result, fontJSON []byt
 	}
 	_, code, stderr := cli.run(src, o, fontJSON)
 	switch {
-	case code == -2:
-		return "" // no verdict on wall-clock grounds; the library path has the tick budget
+	case code == -2, code == -1 && !strings.Contains(stderr, "panic:") && !strings.Contains(stderr, "fatal error:"):
+		return "" // no verdict on wall-clock grounds (the library path has the tick budget) or when the process could not be started
 	case code == 0 && lib.HasOut, code == 1 && !lib.HasOut && strings.Contains(stderr, "PORYSCRIPT ERROR"):
 		return ""
 	case strings.Contains(stderr, "panic:") || strings.Contains(stderr, "goroutine ") || strings.Contains(stderr, "fatal error:") || code < 0 || code > 1:
@@ -162,7 +162,11 @@ func cliCheck(src string, o *comp.Options, lib *comp.Result, fontJSON []byte) st
 	if o.LineMarkers && o.Path != "prog.pory" {
 		return ""
 	}
-	out, ok, errText := cli.compile(src, o, fontJSON)
+	out, code, errText := cli.run(src, o, fontJSON)
+	if code < 0 {
+		return "" // the subprocess could not be started or was still running after 20 s: no verdict on such grounds
+	}
+	ok := code == 0
 	if !ok {
 		return fmt.Sprintf("the library call compiles the program, the command-line front end fails: %.300s", errText)
 	}
